@@ -72,7 +72,8 @@ func buildPolicy(s Sched) (simcore.Policy, error) {
 		if err != nil {
 			return nil, err
 		}
-		base = simcore.Starve{Victim: v, Inner: inner, Desc: s.Victim}
+		base = simcore.NewStarve(simcore.Starve{Victim: v, Inner: inner, Desc: s.Victim, Leak: s.Leak, R: simcore.NewRNG(s.Seed ^ 0x6c65616b), TrigK: s.Trig,
+			Trigger: func(l simcore.Label) (uint64, bool) { return l.B, l.Site == SAuto }})
 	case "explicit":
 		base = &simcore.Explicit{Choices: s.Choices, Sizes: s.Sizes, Lenient: s.Lenient}
 	default:
@@ -165,6 +166,11 @@ func runEpisode(sc *Scenario) *Result {
 	ep := &episode{sc: sc, res: res, faults: map[string]int{}, probes: map[string]int{}}
 	defer func() {
 		res.WallMs = float64(time.Since(t0).Microseconds()) / 1000
+		if consStall > 0 {
+			if n := int(consStallCount.Load() / consStallEvery); n > 0 {
+				ep.faults["slow-consumer-stall"] += n
+			}
+		}
 		res.Faults = ep.faults
 		res.Probes = ep.probes
 	}()
@@ -557,7 +563,14 @@ func (ep *episode) withFault(j *Job, jr *jobRun, path string, call func()) func(
 			}
 		} else if j.Fault.Kind != "" {
 			jr.res.FaultFired = true
-			jr.faultsFired = append(jr.faultsFired, j.Fault.Kind)
+			kind := j.Fault.Kind
+			if kind == "fifo" && j.Fault.Budget > 0 {
+				kind = "fifo-busy-reader"
+			}
+			jr.faultsFired = append(jr.faultsFired, kind)
+		}
+		if j.StallMs > 0 {
+			jr.faultsFired = append(jr.faultsFired, "slow-producer-stall")
 		}
 	}
 }
@@ -647,8 +660,13 @@ func (ep *episode) prepare(j *Job, jres *JobResult) (*jobRun, error) {
 		}
 		jr.state = sinkState{sink: j.Sink, ordered: true}
 		var s sdf.SDF3 = model
-		if j.EvalMod > 0 {
-			s = &ySDF3{inner: model, jid: jr.jid, setCtx: j.Leaves || ep.sim.SiteActive(SAuto)}
+		if j.EvalMod > 0 || j.EvalStallMs > 0 {
+			y := &ySDF3{inner: model, jid: jr.jid, setCtx: j.Leaves || ep.sim.SiteActive(SAuto)}
+			if j.EvalStallMs > 0 {
+				y.slow = &slowEval{at: int64(max(j.EvalStallAt, 1)), d: time.Duration(j.EvalStallMs) * time.Millisecond}
+				jr.faultsFired = append(jr.faultsFired, "slow-evaluation-stall")
+			}
+			s = y
 		}
 		err := ep.bind3(jr, s, tap, faulty)
 		end := jr.end
@@ -685,8 +703,13 @@ func (ep *episode) prepare(j *Job, jres *JobResult) (*jobRun, error) {
 		}
 		jr.state = sinkState{sink: j.Sink, ordered: true}
 		var s sdf.SDF2 = model
-		if j.EvalMod > 0 {
-			s = &ySDF2{inner: model, jid: jr.jid, setCtx: j.Leaves || ep.sim.SiteActive(SAuto)}
+		if j.EvalMod > 0 || j.EvalStallMs > 0 {
+			y := &ySDF2{inner: model, jid: jr.jid, setCtx: j.Leaves || ep.sim.SiteActive(SAuto)}
+			if j.EvalStallMs > 0 {
+				y.slow = &slowEval{at: int64(max(j.EvalStallAt, 1)), d: time.Duration(j.EvalStallMs) * time.Millisecond}
+				jr.faultsFired = append(jr.faultsFired, "slow-evaluation-stall")
+			}
+			s = y
 		}
 		err := ep.bind2(jr, s, tap, faulty)
 		end := jr.end
@@ -891,6 +914,26 @@ func (ep *episode) compareBatchSTL(jr *jobRun) {
 	for _, mesh := range held {
 		if c := compareLoaded(jr.state.tris, mesh); !c.OK {
 			c.Msg += " (compared after later LoadSTL calls)"
+			jr.res.AtReturn = &c
+			return
+		}
+	}
+	// the mesh is the caller's to change (scale, move, flip): the file is loaded again
+	// after the first result has been edited in place, and must still give what it holds
+	for _, mesh := range held {
+		for _, t := range mesh {
+			t[0], t[1], t[2] = t[2].MulScalar(25.4), t[1].MulScalar(-1), t[0].AddScalar(1000)
+		}
+	}
+	for _, p := range []string{jr.state.path, p2} {
+		mesh, err := render.LoadSTL(p)
+		if err != nil {
+			c := bad("stl-load", "second LoadSTL of the same unchanged file: %v", err)
+			jr.res.AtReturn = &c
+			return
+		}
+		if c := compareLoaded(jr.state.tris, mesh); !c.OK {
+			c.Msg += " (second load of the unchanged file, after the first result was edited in place)"
 			jr.res.AtReturn = &c
 			return
 		}
